@@ -1093,6 +1093,13 @@ def known_cause_collect_expression(tr, why):
             ex = pw.exp
             if isinstance(ex, SymQuantity) and sp.sympify(ex.scale_factor).is_zero:
                 return "power-whose-exponent-is-a-zero-valued-quantity"
+    # D31: _collect_mul returns the bare numeric factor as soon as that factor is 0 / +-oo / NaN and DROPS the symbolic factors; for
+    # an infinite factor the sign of the dropped factor decides the value (oo * s is -oo where s < 0)
+    if "returned expression" in why:
+        for m in sp.preorder_traversal(sp.sympify(tr)):
+            if m.is_Mul and any(a in (S.Infinity, S.NegativeInfinity) for a in m.args) and \
+                    any(getattr(a, "free_symbols", None) for a in m.args):
+                return "infinite-numeric-factor-times-a-symbolic-factor-of-unknown-sign"
     # D30: the real is_number() answers True for a sub-expression that still contains symbols: complex((-1)**(x + oo)) does not
     # raise (SymPy evaluates it to nan + nan*I), so the operand is filed under "numbers" and never inspected
     from symplyphysics.core.dimensions.miscellaneous import is_number as real_is_number
@@ -1115,7 +1122,7 @@ def known_witnesses_collect_expression():
     x = Symbol("x", u.length)
     t = Symbol("t", u.time)
     f = Function("f", [t], u.length)
-    return [(oo * p) ** Quantity(0), (-1) ** (2 * sp.Derivative(f(t), t) + oo) * x]
+    return [(oo * p) ** Quantity(0), (-1) ** (2 * sp.Derivative(f(t), t) + oo) * x, sp.Max(2, oo / sp.log(x / t))]
 
 
 def search_collect_expression(seed=0, budget=6000, depth=2, known=None):
